@@ -161,6 +161,37 @@ def c07_withdraw(stream, res, impl):
                     return ("racing withdrawals of one wallet: %d round(s) of %d earned, %d paid out in %d successful withdrawals (fee %d), %d left: "
                             "the same earnings were paid more than once or lost (%s)" % (rounds, credit, paid, succ, fee, left, op[:160]))
         return None
+    if stream["component"] == "cache":
+        # the deposit cache: a served value is a still-valid entry or the lookup's answer now
+        exp_after, now, items = 0, 0, {}
+        for op, out in zip(res, impl):
+            t = op.split()
+            if len(t) < 2:
+                continue
+            if t[0] == "case":
+                exp_after, now, items = 0, 0, {}
+            if t[1] == "reset":
+                exp_after, items = int(t[2]), {}
+            elif t[1] == "advance":
+                now += int(t[2])
+            elif t[1] == "set":
+                items[t[2]] = (int(t[3]), None if exp_after == 0 else now + exp_after)
+            elif t[1] == "get":
+                it = items.get(t[2])
+                live = it is not None and (it[1] is None or now < it[1])
+                if live:
+                    want = "ok %d" % it[0]
+                elif t[3] == "fail":
+                    items.pop(t[2], None)
+                    want = "err lookup"
+                else:
+                    items[t[2]] = (int(t[3]), None if exp_after == 0 else now + exp_after)
+                    want = "ok %s" % int(t[3])
+                if out != want:
+                    if out.startswith("ok") and not live and t[3] == "fail":
+                        return "deposit of %s: the cached value expired, the lookup failed, and %s was served all the same (a withdrawal would pay it)" % (t[2], out[3:])
+                    return "deposit of %s at clock %d: served `%s`, a still-valid entry or the lookup's answer is `%s`" % (t[2], now, out, want)
+        return None
     if stream["component"] != "pool":
         return None
     cfg = {}
